@@ -243,7 +243,12 @@ def step (st : State) (w : List String) : State × String :=
         | WRes.ok => "ok"
         | WRes.fail => "fail"
         | WRes.work => "work"
-      (st, s!"unsup={boolStr r.1} ok={boolStr r.2} anch={anch} w={wstr}:{wr.2}")
+      let estr := match verifyDSErr supportedDS dmatch limit keys dl with
+        | DErr.ok => "ok"
+        | DErr.missingKSK => "missing-ksk"
+        | DErr.mismatchingDS => "mismatching-ds"
+        | DErr.unsupported => "unsupported-ds"
+      (st, s!"unsup={boolStr r.1} ok={boolStr r.2} err={estr} anch={anch} w={wstr}:{wr.2}")
     | _, _ => (st, "bad-op")
   | ["vfy", "sig", k, sg, rr, o, c, sw, h, x] =>
     match parseVKey (k.drop 2).toString, parseVSig (sg.drop 2).toString,
